@@ -164,7 +164,10 @@ def work(item):
             elif r == z3.unknown: res['q']['unknown'] += 1
             else: cands.append(solve.concretize(s.model(), vals_))
             if sc is not None and solve.structure(sc)[1] == solve.structure(dense)[1]:
-                vd = solve.equiv(dense, sc, pc=P.pc, defined=d0, side=P.side, timeout_ms=10000, margin=1e-9, budget_s=20)
+                try:
+                    vd = solve.equiv(dense, sc, pc=P.pc, defined=d0, side=P.side, timeout_ms=10000, margin=1e-9, budget_s=20)
+                except Unsupported as ex:
+                    res['status'] = 'unsupported'; res['unsupported'] = str(ex)[:60]; continue
                 for kk, n in vd.counts().items(): res['q'][kk] += n
                 cands += [solve.concretize(m, vals_) for idx_, m in vd.models]
             detail = ''
@@ -195,6 +198,10 @@ def items(tier, seed):
     P += d1[:1200 if tier == 'quick' else len(d1)]
     d2 = list(progs.depth2(d1[:400] if tier == 'quick' else d1[:4000])); rng.shuffle(d2)
     P += d2[:800 if tier == 'quick' else 30000]
+    # targeted structural family: multi-axis index blocks (Inflate index composition), multi-factor products (cluster logic), equal-length axes
+    S1 = [p for p, e in progs.typed(progs.structured(1))]
+    S2 = [p for p, e in progs.typed(progs.structured(2)) if p not in set(S1)]; rng.shuffle(S2)
+    P += S1 + S2[:1500 if tier == 'quick' else len(S2)]
     return list(enumerate(P))
 
 def main(argv=None):
@@ -219,7 +226,7 @@ def main(argv=None):
     # vacuity twin: COO data with a swapped index pair must violate well-formedness
     v = SArray.symbolic('v', (2,)); idx = SArray.wrap(numpy.array([1, 0]))
     wf, _ = coo_obligations(v, [idx], (3,)); run.twin(solve.satisfiable([z3.Not(wf)]) == 'sat')
-    for res in harness.pmap(work, I, args.jobs, chunksize=8):
+    for res in harness.pmap(work, I, args.jobs, chunksize=4, case_timeout=60 if args.tier == "quick" else 300):
         if 'harness_error' in res:
             run.counters['worker_error'] += 1
             if run.counters['worker_error'] <= 3: run.inconclusive.append('worker error: ' + res['harness_error'][:500])
